@@ -50,6 +50,18 @@ def cases(rng, tier):
     if tier != "search":
         for name, lines in T.fixture_configs():
             yield mk("ios", False, None, lines, "fixture:" + name)
+    if tier != "search":
+        from props import editlib as E
+        for _ in range({"quick": 500, "thorough": 20000}[tier]):
+            ign = rng.random() < 0.5
+            lines = rng.choice(E.SEED_CONFIGS) if rng.random() < 0.5 else T.rand_config(rng, 8, True, None)
+            ops = [o for o in E.rand_ops(rng, rng.choice([1, 2, 3, 5]), True) if o[0] not in ("lib", "lia", "commit", "probe")]
+            # blanking a line in place / leaving an indented whitespace-only line at the end
+            if rng.random() < 0.5:
+                ops.append(rng.choice([["set", rng.randrange(64), rng.choice([" ", "  ", "   ", ""])],
+                                       ["app", rng.choice([" ", "  ", "    "])],
+                                       ["sub", rng.randrange(64), r"\S.*", ""]]))
+            yield mk_hist(rng.choice(T.SYNTAXES), ign, lines, ops)
     for _ in range(n):
         delims = rng.choice(T.DELIM_SETS)
         lines = []
@@ -73,16 +85,73 @@ def neighbours(case, rng):
         yield mk(case["syntax"], case["ignore_blank"], case["delims"], ls)
 
 
+def mk_hist(syntax, ign, lines, ops):
+    """a committed edit sequence: the forest is examined on the LIVE objects after the last commit; the model
+    answers for a from-scratch parse of the resulting texts (C07 proves / checks that the two coincide)"""
+    c = mk(syntax, ign, None, lines, "history")
+    c["ops"] = ops
+    c["req"] = None          # depends on the texts the history ends with
+    return c
+
+
 def impl(case):
     def dump(p):
         return T.dump_links(p) + "&" + T.dump_views(p)
-    return T.run_impl(case, dump)
+    if case.get("ops") is None:
+        return T.run_impl(case, dump)
+    from props import editlib as E
+    import re as _re
+    quiet = T.quiet_ccp  # noqa: F841
+    p = T.parse_impl(dict(case, auto_commit=True))
+    for op in case["ops"]:
+        k = op[0]
+        n = len(p.config_objs)
+        try:
+            if k == "ins":
+                p.config_objs.insert(op[1], op[2])
+            elif k == "app":
+                p.config_objs.append(op[1])
+            elif k == "pop":
+                p.config_objs.pop(op[1])
+            elif n == 0:
+                continue
+            elif k == "oia":
+                p.config_objs[op[1] % n].insert_after(op[2])
+            elif k == "oib":
+                p.config_objs[op[1] % n].insert_before(op[2])
+            elif k == "del":
+                p.config_objs[op[1] % n].delete()
+            elif k == "atf":
+                p.config_objs[op[1] % n].append_to_family(op[2], indent=op[3], auto_indent=op[4])
+            elif k == "rep":
+                p.config_objs[op[1] % n].replace_text(op[2], op[3])
+            elif k == "sub":
+                p.config_objs[op[1] % n].re_sub(op[2], op[3])
+            elif k == "set":
+                p.config_objs[op[1] % n].text = op[2]
+                p.commit()
+        except (IndexError, NotImplementedError, ValueError, _re.error):
+            pass
+        except Exception as e:  # noqa: BLE001
+            if type(e).__name__ not in ("InvalidParameters", "ConfigListItemDoesNotExist"):
+                raise
+    # no extra commit here: every operation above auto-commits, and a second commit would rebuild (and hide) stale links
+    texts = list(p.get_text())
+    ds = T.cfg_delims(case["syntax"], case["delims"])
+    req = wire.req("tree", "1" if case["syntax"] == "ios" else "0", wire.enc_str("".join(ds)),
+                   "1" if case["ignore_blank"] else "0", "forest", wire.enc_strs(texts))
+    case["final_texts"] = texts
+    return dump(p), req
 
 
 def check_forest(parents, children, views, indents):
     """Independent check of the property on the implementation's own dump."""
     n = len(parents)
     fails = []
+    for i in range(n):
+        bad = [j for j in children[i] if not (0 <= j < n)]
+        if bad or not (0 <= parents[i] < n):
+            return [f"line {i}: child list {children[i]} / parent {parents[i]} names a line that is not in the config (n={n})"]
     for i in range(n):
         p = parents[i]
         if p > i:
@@ -145,7 +214,10 @@ def oracle(case, ans):
     if ans.startswith("err:"):
         return [f"parse raised {ans}"]
     parents, children, views = parse_dump(ans)
-    kept = T.ref_kept(case["lines"], case["syntax"] == "ios", case["ignore_blank"])
+    src = case.get("final_texts") if case.get("ops") is not None else case["lines"]
+    if src is None:
+        return []
+    kept = T.ref_kept(src, case["syntax"] == "ios", case["ignore_blank"]) if case.get("ops") is None else list(src)
     if len(kept) != len(parents):
         return []     # losslessness is C01's business
     indents = [len(t) - len(t.lstrip()) for t in kept]
@@ -157,6 +229,8 @@ def nontrivial(case):
 
 
 def describe(case):
+    if case.get("ops") is not None:
+        return {k: case[k] for k in ("syntax", "ignore_blank", "lines", "ops")}
     if len(case["lines"]) > 30:
         return {"syntax": case["syntax"], "n_lines": len(case["lines"]), "origin": case.get("_origin")}
     return {k: case[k] for k in ("syntax", "ignore_blank", "delims", "lines")}
